@@ -17,7 +17,8 @@
 (* Deviations: "IncrementChunk" (writer moves to "the next" chunk instead  *)
 (* of the document's chunk), "NoInvalidate" (a newly loaded chunk keeps    *)
 (* the previous chunk's decompressed bytes), "NoChunkCheck" (the cached    *)
-(* chunk is never replaced once loaded).                                   *)
+(* chunk is never replaced once loaded), "EarlyFlushOverwritesLen" (the     *)
+(* merger's progressive writer flushes a chunk in two parts - seeded C17-q).*)
 (***************************************************************************)
 EXTENDS Integers, Sequences, FiniteSets, TLC, SequencesExt
 
@@ -44,7 +45,11 @@ Write(todo, currChunk, open, lens, final) ==
          IF k # currChunk
          THEN Write(Tail(todo), IF "IncrementChunk" \in Dev THEN currChunk + 1 ELSE k, <<d>>,     \* Add: flush, switch, add
                     [lens EXCEPT ![currChunk] = Len(open)], final \o open)
-         ELSE Write(Tail(todo), currChunk, Append(open, d), lens, final)
+         ELSE IF "EarlyFlushOverwritesLen" \in Dev /\ Len(open) >= 1
+              THEN \* seeded C17-q: a size bound flushes the chunk that is still being filled; its recorded length is
+                   \* OVERWRITTEN by the next part's, although both parts are in the file
+                   Write(Tail(todo), currChunk, <<d>>, [lens EXCEPT ![currChunk] = Len(open)], final \o open)
+              ELSE Write(Tail(todo), currChunk, Append(open, d), lens, final)
 
 \* with the deviation the writer can run past the chunk table; clamp so that the model stays total
 SafeWrite ==
